@@ -23,7 +23,8 @@ Inductive op :=
 | Rotate                                   (* explicit rotate() *)
 | Reopen                                   (* reopen(), or a restart: size := real length of the current file *)
 | CrashRotate (k : nat)                    (* rotate() killed after k remove/rename calls; restart *)
-| CrashWrite (k : nat) (n : nat) (b : bytes). (* write() whose automatic rotate() is killed likewise *)
+| CrashWrite (k : nat) (n : nat) (b : bytes) (* write() whose automatic rotate() is killed likewise *)
+| ExtMove.                                  (* an external tool moves the current file away, then reopen() *)
 
 (** what an operation did, for the ghost log: a rotation (byte length of the file that became
     [path.1], automatic or explicit), a crash, and the bytes that actually reached the file *)
@@ -66,6 +67,7 @@ Section Cfg.
         else (append n b s, mkev None false b)
     | Rotate => (rotate s, mkev (Some (length (cur s), false)) false [])
     | Reopen => (restart s, mkev None false [])
+    | ExtMove => (mk (rot s) [] 0, mkev None false [])
     | CrashRotate k =>
         (crash_rotate k s,
          mkev (if Nat.leb k (length (rot s)) then None else Some (length (cur s), false)) true [])
@@ -111,3 +113,6 @@ Definition writes_ok (o : op) : Prop :=
 
 Definition crash_free (o : op) : Prop :=
   match o with CrashRotate _ | CrashWrite _ _ _ => False | _ => True end.
+
+(** no external tool takes the current file away *)
+Definition internal (o : op) : Prop := match o with ExtMove => False | _ => True end.
